@@ -10,6 +10,7 @@ CLS, BASE, CHARS, RENDERS, VALID, PARSABLE, STRICT, PROBE, PAYLOAD, TABLE = rang
 ALLSET = '1;3;4;5;7;8;9;11;26;51;53;31;41;58;5;1'
 PRIOR = '\x1b[' + ALLSET + 'm'     # a terminal that is not in its default state
 SGR_RE = re.compile('\x1b\\[[^\x40-\x7e]*m')
+CSI_RE = re.compile('\x1b\\[([^\x40-\x7e]*)([\x40-\x7e]?)')
 RESET_START_RE = re.compile('^\x1b\\[0?(;[^\x40-\x7e]*)?m')
 
 
@@ -717,17 +718,44 @@ def o_c17(term, t, op, pre, post, res, fails):
     # find_settings is checked in checks/c17 where the scrubbed settings are known
 
 
+def closed_text(x):
+    """Python port of RoundTripEsc.closed_text: every ESC [ in x starts a COMPLETE control sequence whose final byte is not 'm',
+    and x does not end in ESC or inside a sequence (x tokenises to its own characters in every context)"""
+    st = 0
+    for c in x:
+        if st == 0:
+            st = 1 if c == '\x1b' else 0
+        elif st == 1:
+            st = 2 if c == '[' else (1 if c == '\x1b' else 0)
+        elif 0x40 <= ord(c) <= 0x7e:
+            if c == 'm':
+                return False
+            st = 0
+    return st == 0
+
+
+def cuts_closed(ob):
+    """hypothesis of C15_render_strip_esc / C03_roundtrip_esc on an observed value: the text and its prefix up to every change
+    point are closed (no change point strictly inside an embedded control sequence); outside it: known finding K1"""
+    base = ob[BASE]
+    return closed_text(base) and all(closed_text(base[:row[0]]) for row in ob[TABLE])
+
+
 def o_c15_render(term, ob, fails, where):
     base = ob[BASE]
-    if '\x1b' in base or not ob[VALID]:
+    if not ob[VALID] or ('\x1b' in base and not cuts_closed(ob)):
         return
     for (opt, rs, re_), out in zip(FLAGS8, ob[RENDERS]):
-        if SGR_RE.sub('', out) != base:
+        # control sequences are read left to right with the documented grammar (ESC [, bytes outside 0x40-0x7E, one final byte);
+        # those that end in 'm' are the SGR sequences (a search for the substring ESC[...m would also hit an ESC that is a
+        # parameter byte of an embedded sequence - K5)
+        stripped = CSI_RE.sub(lambda m: '' if m.group(2) == 'm' else m.group(0), out)
+        if stripped != base:
             fails.append({'oracle': 'C15.strip', 'where': where, 'output': out,
-                          'msg': 'is_formatting_valid() but removing ESC[...m from the rendering gives %r, base_str is %r' % (SGR_RE.sub('', out), base)})
+                          'msg': 'is_formatting_valid() but removing ESC[...m from the rendering gives %r, base_str is %r' % (stripped, base)})
             return
         if not opt:
-            seqs = SGR_RE.findall(out)
+            seqs = [m.group(0) for m in CSI_RE.finditer(out) if m.group(2) == 'm']
             bodies = [';' + s[2:-1] + ';' for s in seqs]
             for l in ob[CHARS]:
                 for (_, tx) in l:
